@@ -54,7 +54,7 @@ func init() {
 		Cases: func(tier string) int { return tierN(tier, 800, 50000) },
 		Rule: "case = one history (14-55 ops quick, up to 120 thorough) with rollback targets v = latest / first / middle, repeated and nested rollbacks (Rollback(), LoadVersionForOverwriting(v), DeleteVersionsFrom(v+1)+LoadVersion(v)), rollbacks after pruning, uncommitted writes present at rollback time, caches 0/1/3/1000, fast index on/off, flush thresholds 150..default. " +
 			"Rollback(): every read path of the working tree (model battery, fast-vs-walk, WorkingHash) must equal the last committed version. Rollback to v: every version > v unavailable on every API (live and reopened), every version <= v with unchanged observation vector (hash, contents, reads, proofs); from then on a TWIN - a fresh tree on a fresh store that replayed only the surviving history under the same configuration - receives the same further operations and every outcome (errors, versions, commit hashes, working hashes, available versions, full read battery) is compared step by step; both are also checked against M/R, the raw-storage audit (C12 monitor) runs on the rolled-back store, and raw-store equality with the twin is recorded (not alarmed). " +
-			"distinct = hash(config, ops); non-trivial = >=1 rollback to a version that erased >=1 version, followed by >=1 further commit.",
+			"Every 5th case uses its first handle without an initial Load(): a prefix of 3-6 operations writes to the fresh tree, then issues LoadVersion on the store that still has no version (nothing is loaded, the working tree is kept), with or without a Rollback after it, and the planned history follows. distinct = hash(config, ops); non-trivial = >=1 rollback to a version that erased >=1 version, followed by >=1 further commit.",
 		Assumptions: []string{"M and R as in C01/C02", "the twin is built by replaying the recorded per-version write sets; raw-store equality with the twin is stronger than the property and only recorded"},
 		Run: func(c *fw.Ctx) {
 			w := map[string]int{"set": 34, "rm": 14, "save": 22, "rollback": 8, "reopen": 5, "load": 1, "delto": 4, "lfo": 9, "delfrom": 4}
@@ -64,6 +64,7 @@ func init() {
 				p.MaxOps = 120
 			}
 			pl := v1x.MakePlan(c.Rng, p)
+			v1x.LazyPrefix(pl, c.Index)
 			c.Res.Digest = fw.DigestOf(pl.Cfg, pl.Summary(1000))
 			if c.Index < 2 {
 				c.Res.Sample = pl.Summary(60)
